@@ -65,6 +65,19 @@ def _mat(c):
                 for opt in [x for x in opts if x in ("directed", "mean", "max", "min")]:
                     o["eca"][wt][opt] = enc.arr(es.event_series_analysis(
                         method="ECA", symmetrization=opt, window_type=wt))
+        # the climate-network wrapper (unit time steps only): its similarity is the directed ES matrix and
+        # it links the pairs with a positive score
+        o["escn"], o["escn_adj"] = [], []
+        if c["unit"]:
+            from pyunicorn.core import GeoGrid
+            from pyunicorn.climate import ClimateData, EventSeriesClimateNetwork
+            grid = GeoGrid(np.arange(float(len(data))), np.array([0.0, 20.0, 40.0]), np.array([0.0, 30.0, 60.0]),
+                           silence_level=3)
+            cd = ClimateData(np.array(data, dtype=float), grid, 1, silence_level=3)
+            net = EventSeriesClimateNetwork(cd, method="ES", taumax=tm, lag=c["lag"] / den,
+                                            symmetrization="directed", silence_level=3)
+            o["escn"] = enc.arr(net.similarity_measure())
+            o["escn_adj"] = enc.ints(net.adjacency)
     except Exception as ex:
         o["exc"] = type(ex).__name__
     return o
